@@ -169,6 +169,8 @@ func main() {
 					switch {
 					case vs.Type != nil && isSync(vs.Type, "Pool"):
 						pi.pools = append(pi.pools, name.Name)
+					case vs.Type != nil && (isSync(vs.Type, "Once") || isSync(vs.Type, "Map")):
+						pi.pools = append(pi.pools, name.Name) // (same treatment: x.VerifReset() at restart)
 					case vs.Type != nil && isSync(vs.Type, "Mutex"):
 						pi.mutexes = append(pi.mutexes, name.Name)
 						fileHasMutex = true
@@ -178,7 +180,7 @@ func main() {
 					}
 					if cl, ok := val.(*ast.CompositeLit); ok {
 						switch {
-						case isSync(cl.Type, "Pool"):
+						case isSync(cl.Type, "Pool"), isSync(cl.Type, "Once"), isSync(cl.Type, "Map"):
 							pi.pools = append(pi.pools, name.Name)
 						case isSync(cl.Type, "Mutex"):
 							pi.mutexes = append(pi.mutexes, name.Name)
